@@ -12,7 +12,7 @@ func init() {
 		Level: "exploration",
 		Rule: "cases = generated (logger name, message, severity, caller flag, 0-24 attributes with unique hostile keys and values of every supported kind, groups nested <= 4) " +
 			"from PCG(seed, property, index); each record is captured at a recording writer and decoded by an independent strict JSON walker; " +
-			"non-trivial = record decoded and matched AND (has attributes or a non-plain message); distinct = by payload bytes",
+			"Round 12: 7% of the records go through Infof / Warnf / Errorf (with and without operands, percent signs escaped); a quarter of the caller-flag records have no frame behind them (WriteThru with pc 0, a skip count of 1000: an empty or absent caller member, valid JSON all the same). non-trivial = record decoded and matched AND (has attributes or a non-plain message); distinct = by payload bytes",
 		Assumptions: []string{"encoding/json's scanner and decoder (go1.23.5) as the reference for RFC 8259 validity", "user marshallers / value stringers are outside the domain"},
 		Floors:      map[string]int64{"records_decoded": 100, "records_through_the_printf_style_entry_points": 100, "records_without_a_frame_with_the_caller_flag_on": 100},
 		Jobs: func(tier string, seed int64) []Job {
@@ -57,7 +57,7 @@ func init() {
 		Rule: "cases = generated colored records via WriteThru (fixed instant and frame): 15 severities (built-in, registered fg / fg+bg / no colour, unregistered), tag width 1-5, minimal width 16-80, " +
 			"single/multi-line messages with/without trailing newline (70% in the layout domain, 30% with markup or other controls), 0-24 attributes of every kind incl. errors and groups; both process modes. " +
 			"Oracles: SGR terminal-state simulator (default state at every LF and at the end), escape/control skeleton compared with the same record logged with neutralised values, layout parser over the stripped text. " +
-			"non-trivial = all clauses passed on a decoded record; distinct = by payload bytes Further jobs: processes with the no-color switch on, with NO_COLOR set, with the working directory removed under them. Every fourth caller case also issues a record through one of 14 public entry points from a statement of the harness and checks that the record ends with that call site; 4% of the records carry a value whose MarshalText fails with a hostile error text (judged by the escape/control skeleton only).",
+			"Round 12: under go test errors that carry a stack trace stay such (their dump is judged); 12% of the loggers have a timestamp layout of their own (blanks, commas, zone abbreviations); every eleventh case has a chunking destination (48 bytes per call, no error) in front of the recording one. non-trivial = all clauses passed on a decoded record; distinct = by payload bytes Further jobs: processes with the no-color switch on, with NO_COLOR set, with the working directory removed under them. Every fourth caller case also issues a record through one of 14 public entry points from a statement of the harness and checks that the record ends with that call site; 4% of the records carry a value whose MarshalText fails with a hostile error text (judged by the escape/control skeleton only).",
 		Assumptions: []string{"ShortTag and Source.Extract of the library are used to build the expected tag and caller text (their own correctness is C17 / C14 / C18)", "under go test, error texts are generated without control bytes (the multi-line dump prints the error text verbatim by design)"},
 		Floors:      map[string]int64{"records_decoded": 100, "layout_checked": 50, "sgr_sequences_simulated": 1000},
 		Jobs: func(tier string, seed int64) []Job {
@@ -77,7 +77,7 @@ func init() {
 		Level: "exploration",
 		Rule: "cases = generated logger chains of depth 1-4 (own-attribute lists of 0-20 incl. empty ones at every position, set through SetAttrs/SetAttrs1/Set), 0-5 registered context keys (string and Stringer, present/absent, nil context), " +
 			"0-64 call arguments (Attr objects and key,value pairs) over a small key space so that keys collide, groups with colliding members, inherit flag on/off, all three formats; every value carries its source tag; " +
-			"the decoded ordered (dotted key, value) list must equal the reference merge (last occurrence wins, ascending order at every level). non-trivial = decoded, matched and at least one attribute; distinct = by the source lists",
+			"the decoded ordered (dotted key, value) list must equal the reference merge (last occurrence wins, ascending order at every level). Round 12: two cases in five with context keys run under a cancelled / expired context that still holds its values; in 20% of the cases the process's default logger (no ancestor of the chain) holds attributes of its own. non-trivial = decoded, matched and at least one attribute; distinct = by the source lists",
 		Assumptions: []string{"the decoders of C04/C05/C06 (independent JSON walker, logfmt tokenizer, SGR stripper)"},
 		Floors:      map[string]int64{"records_decoded": 100, "records_with_13plus_attrs": 20, "inheriting_child_without_own_attrs": 5},
 		Jobs: func(tier string, seed int64) []Job {
@@ -152,7 +152,7 @@ func init() {
 			"mutex-protected recording writers with optional Gosched / sleep inside Write; every call carries its id in the message and in every attribute, plus a shared unsorted Group at the call site, a shared Group at logger level, a shared error value, " +
 			"a marshaller spy that records which pooled PrintCtx formatted it, and occasional 150-350 extra attributes (jump above the pooled size hint). Runs are executed twice: without and with the Go race detector (GORACE halt_on_error=0, reports parsed from the log files, deduplicated by the logg frames of the two stacks). " +
 			"side: the same oracles for 600-1500 calls next to (a) another logger whose destination keeps reporting errors, with caller information switched on, (b) a log/slog.Logger derived with .With(...) whose records mostly have no attributes of their own, (c) a process that changed its working directory and issues half of its records through reflection (caller frame inside the Go installation). " +
-			"Oracles: any DATA RACE report with a logg frame; every payload decodes to the complete record of exactly one call; multiset of delivered ids == multiset of issued ids per logger. non-trivial = run with all records decoded; distinct = by run configuration side also has the scenario closed-elsewhere (loggers on the process's stdout while every goroutine makes, uses and closes request loggers of its own: every record arrives on stdout) and, in the failing scenario, a healthy destination behind the failing one that must get every record; a case whose calls do not return within 2 minutes ends the child and makes the run inconclusive.",
+			"Oracles: any DATA RACE report with a logg frame; every payload decodes to the complete record of exactly one call; multiset of delivered ids == multiset of issued ids per logger. Round 12: JSON loggers also get a shared Group and a shared Attrs list in VALUE position; a quarter of the loggers have io.Discard as their normal device while the error device or a per-level destination records; side/frontend starts with bases of 3, 5 and 7 derivation entries and compares the shared group value with what the application built; side/closed-elsewhere reads stdout and stderr back. non-trivial = run with all records decoded; distinct = by run configuration side also has the scenario closed-elsewhere (loggers on the process's stdout while every goroutine makes, uses and closes request loggers of its own: every record arrives on stdout) and, in the failing scenario, a healthy destination behind the failing one that must get every record; a case whose calls do not return within 2 minutes ends the child and makes the run inconclusive.",
 		Assumptions: []string{"the Go race detector reports only races on executions it sees (happens-before based, no false positives)", "concurrent reconfiguration of a logger is outside the claim and not generated"},
 		Floors:      map[string]int64{"records_decoded": 5000, "max:max_writes_in_flight": 2, "goroutine_switches_in_arrival_order": 100, "print_contexts_used_by_several_goroutines": 1, "side_records_decoded": 3000},
 		Jobs: func(tier string, seed int64) []Job {
@@ -168,7 +168,7 @@ func init() {
 		Level: "exploration",
 		Race:  true,
 		Rule: "one case = one probe call (WriteThru with explicit timestamp and frame; format x 15 severities incl. registered fg-only / fg+bg / no colour and unregistered; groups, errors, multi-line messages, caller on/off, long values) formatted once by a fresh context (pool flushed with two GC cycles) and then again after each of 6 generated histories of 1-20 other records " +
-			"(other formats, levels with background colours or none, sizes, other loggers, other goroutines, interleaved GC); GOMAXPROCS=1 so the pooled context is deterministically reused, which a marshaller spy confirms per execution. Oracle: byte equality. non-trivial = probe compared after all histories; distinct = by probe bytes. chdir: the reference is ANOTHER process - two processes started alike go chdir(A), chdir(B), probe (caller information on, frame in the library or the harness, privacy flag on/off); one of them logged in A (a caller record, one on a goroutine, several, one without caller info); payloads equal. parallel: 3-33 goroutines, each with a logger, destination and WriteThru call of its own, replay their call 150-1500 times at once (also under the race detector); every replay equals the payload obtained while the process was quiet",
+			"(other formats, levels with background colours or none, sizes, other loggers, other goroutines, interleaved GC); GOMAXPROCS=1 so the pooled context is deterministically reused, which a marshaller spy confirms per execution. Oracle: byte equality. Round 12 (chdir): between history and probe the process may apply TZ (local-time mode, an instant in another zone), empty the known-path table or remove its home entry (the frame lies under the $HOME the process was started with). non-trivial = probe compared after all histories; distinct = by probe bytes. chdir: the reference is ANOTHER process - two processes started alike go chdir(A), chdir(B), probe (caller information on, frame in the library or the harness, privacy flag on/off); one of them logged in A (a caller record, one on a goroutine, several, one without caller info); payloads equal. parallel: 3-33 goroutines, each with a logger, destination and WriteThru call of its own, replay their call 150-1500 times at once (also under the race detector); every replay equals the payload obtained while the process was quiet",
 		Assumptions: []string{"two runtime.GC() cycles empty sync.Pool (victim cache), giving a fresh formatting context for the reference"},
 		Floors:      map[string]int64{"probe_executions": 500, "reuse_of_pooled_context_confirmed": 100, "reuse_after_a_different_class_of_record": 50, "probe_pairs_compared": 30, "parallel_replays": 20000},
 		Jobs: func(tier string, seed int64) []Job {
@@ -189,7 +189,7 @@ func init() {
 		Level: "exploration", 
 		Rule: "one case = one history of 5-60 operations (New named/anonymous/colliding with options, 11 With* calls, 11 Set* calls incl. writers, skip, context keys) applied to random loggers of a growing forest (two detached roots and a fresh default logger); a reference tree model is advanced in lock-step. " +
 			"After EVERY operation: (isolation, model-free) every logger other than the receiver of a Set* emits byte-identical WriteThru probe output to the same destination as before; (model) every logger's Level/JSONMode/ColorMode/Skip/Name/Parent/Root and its decoded probe (format class, name, timestamp in the modelled zone/layout, attributes, destination incl. redirected stdout) equal the model; " +
-			"context keys through a PrintContext probe; Each/Sublogger against the model subtree. Sub-workload deflevel (own pristine processes, both process modes): package New starts parentless, colored, at the package default level (Warn in production, Debug under go test) and follows SetLevel - also when the default logger's own level was set to the next argument first (a Set on one logger) and in production processes whose environment carries DEBUG with a value that says no or whose command line carries an argument that starts with -bench. Names include ones as long as an import path; Sublogger is also asked for a name BEFORE it exists, from every ancestor, and again after its creation. non-trivial = completed history; distinct = by history big: trees that are big in one dimension (4090-9000 direct children of one logger, anonymous or named; derivation chains of 99-1000 links; bushy trees of 1600-5600 loggers) against the creation history kept by the harness: Each from several starting points visits every logger of the subtree exactly once at its depth, Parent/Root are those of the creation, Sublogger(name) and New(name) hand out the existing child (the late-coming anonymous ones included)",
+			"context keys through a PrintContext probe; Each/Sublogger against the model subtree. Sub-workload deflevel (own pristine processes, both process modes): package New starts parentless, colored, at the package default level (Warn in production, Debug under go test) and follows SetLevel - also when the default logger's own level was set to the next argument first (a Set on one logger) and in production processes whose environment carries DEBUG with a value that says no or whose command line carries an argument that starts with -bench. Names include ones as long as an import path; Sublogger is also asked for a name BEFORE it exists, from every ancestor, and again after its creation. Round 12: operations Close() on a logger that never got writers; registered severities with a treated-as entry as thresholds. non-trivial = completed history; distinct = by history big: trees that are big in one dimension (4090-9000 direct children of one logger, anonymous or named; derivation chains of 99-1000 links; bushy trees of 1600-5600 loggers) against the creation history kept by the harness: Each from several starting points visits every logger of the subtree exactly once at its depth, Parent/Root are those of the creation, Sublogger(name) and New(name) hand out the existing child (the late-coming anonymous ones included)",
 		Assumptions: []string{"default flags (LlocalTime set): an unset UTC mode means the instant's own zone", "SetTimeFormat is only called with explicit non-empty layouts"},
 		Floors:      map[string]int64{"operations": 2000, "isolation_comparisons": 10000, "model_comparisons": 10000, "lookups": 100, "default_level_checks": 10, "big_tree_loggers": 20000},
 		Jobs: func(tier string, seed int64) []Job {
@@ -330,7 +330,7 @@ func init() {
 		Rule: "handler: cases = (underlying logger held as Logger or *Entry, pre-set level, all 8 HandlerOptions boolean combinations x 6 Level values, derivation chain of 0-4 WithAttrs/WithGroup calls, log/slog record with explicit time, standard level, hostile message and 0-5 attributes of every log/slog kind: String/Int64/Uint64/Float64/Bool/Time/Duration/Any(error|struct|nil|int8|[]string)/LogValuer/Group nested <= 3); " +
 			"oracles: Handler.Enabled == logger gate (base and derived); Handle emits exactly one record at the logger's own destination (nothing on fds 1/2, which are redirected); the decoded record (C04/C05/C06 decoders) has the message, the record's own time, the namesake severity and the expected attribute tree (attributes given after WithGroup nested under it); a log/slog.Logger on the handler emits iff the logger admits. " +
 			"bridge: all (8 logger levels x 8 bridge severities) pairs x Print/Printf/Println/Output x hostile messages with 0-2 trailing newlines: one record iff the logger admits the severity, message == std-log line minus its trailing newline, level == bridge severity. " +
-			"conc: 2-16 goroutines log through ONE derived handler (WithAttrs/WithGroup chain of depth 1-3), with and without the race detector: every record carries its own attributes under the groups, none is lost. levelsweep: production child processes run Entry.Log for every log/slog level in -1100..1100 and 53 far values (incl. those equal to LevelFatal / LevelPanic modulo 2^8, 2^16, 2^32) (only LevelFatal / LevelPanic may terminate; the four standard levels are recorded under their namesakes). non-trivial = decoded and matched record / judged pair; distinct = by payload or pair",
+			"conc: 2-16 goroutines log through ONE derived handler (WithAttrs/WithGroup chain of depth 1-3), with and without the race detector: every record carries its own attributes under the groups, none is lost. levelsweep: production child processes run Entry.Log for every log/slog level in -1100..1100 and 53 far values (incl. those equal to LevelFatal / LevelPanic modulo 2^8, 2^16, 2^32) (only LevelFatal / LevelPanic may terminate; the four standard levels are recorded under their namesakes). Round 12 (bridge): three registered severities of the application next to the built-in ones. non-trivial = decoded and matched record / judged pair; distinct = by payload or pair",
 		Assumptions: []string{"attributes bound to the underlying logger itself are not generated (the statement does not say whether a handler shows them)", "an open group always receives at least one attribute (log/slog elides empty groups)"},
 		Floors:      map[string]int64{"records_decoded": 300, "derived_handler_records": 100, "enabled_compared": 1000, "bridge_calls": 500, "bridge_records_decoded": 100, "concurrent_handler_records": 5000, "levels_returned_normally": 79, "explicit_terminations_observed": 2},
 		Jobs: func(tier string, seed int64) []Job {
@@ -346,7 +346,7 @@ func init() {
 		Prop:  "C16",
 		Level: "exploration",
 		Rule: "cases = (instant: year 1-9999, every sub-second pattern, 6 fixed offsets incl. odd minutes + 5 named zones from the embedded tzdata; all 8 date/time/microseconds flag combinations x LlocalTime on/off; UTC mode unset / false / true; no logger layout or one of 14 custom layouts; json/logfmt/color) logged through WriteThru with that instant; " +
-			"the timestamp text is extracted from the record and must equal instant.In(zone).Format(layout) with zone = UTC iff UTC mode or (unset and LlocalTime clear), layout = the logger's, else the documented table for the flags (any exported layout for the two combinations the table does not list); layouts with full date, time and numeric zone must parse back to the instant truncated to the layout's precision. non-trivial = matched timestamp; distinct = by (text, layout, format)",
+			"the timestamp text is extracted from the record and must equal instant.In(zone).Format(layout) with zone = UTC iff UTC mode or (unset and LlocalTime clear), layout = the logger's, else the documented table for the flags (any exported layout for the two combinations the table does not list); layouts with full date, time and numeric zone must parse back to the instant truncated to the layout's precision. Round 12: a fifth of the unset-mode cases go through a WithJSONMode / WithColorMode child of a parent that has a layout and a zone mode of its own. non-trivial = matched timestamp; distinct = by (text, layout, format)",
 		Assumptions: []string{"Go's time.Format/time.Parse (go1.23.5) as the reference for layouts", "SetTimeFormat given several layouts: the last non-empty one is the logger's layout (how the variadic setter is written)"},
 		Floors:      map[string]int64{"timestamps_extracted": 1000, "parsed_back": 100},
 		Jobs: func(tier string, seed int64) []Job {
@@ -358,7 +358,7 @@ func init() {
 		Level: "exploration",
 		Rule: "one case = one history in its own child process (the registry cannot be reset; index 0 is the pristine registry): 1-30 RegisterLevel calls with values -50..70 incl. collisions, titles in lower/Title/UPPER case incl. built-in names, aliases and already registered titles, every subset of the options (short tags with a missing width, treat-as, error device, colour fg / fg+bg). " +
 			"A model of the registry says which calls must be refused (used value, exactly used title; a title differing only in case may go either way). After a refusal EVERY observable (AllLevels, names, 5 tag widths, text marshalling, gating matrix against 12 logger levels, routing and bytes of a colored probe, parse results over a name universe) must be unchanged. " +
-			"After every call, for every built-in / registered level: ParseLevel(String(l)) == l, text and JSON round trips (methods and through encoding/json), ShortTag(1..5) = custom tag or exactly n characters, gating == treated-as rule, routing == error device iff requested, title resolves, built-in names still resolve. non-trivial = completed history; distinct = by history",
+			"After every call, for every built-in / registered level: ParseLevel(String(l)) == l, text and JSON round trips (methods and through encoding/json), ShortTag(1..5) = custom tag or exactly n characters, gating == treated-as rule, routing == error device iff requested, title resolves, built-in names still resolve. Round 12: every fourth route probe adds and removes a writer for the level itself; 12% of the steps sort the slice AllLevels() handed out. non-trivial = completed history; distinct = by history",
 		Assumptions: []string{"ASCII titles", "a title that differs only in case from a used name may be refused or accepted"},
 		Floors:      map[string]int64{"register_calls": 500, "registrations_accepted": 100, "refusals_checked_for_side_effects": 50, "roundtrips": 5000, "custom_levels_probed": 500},
 		Jobs: func(tier string, seed int64) []Job {
